@@ -30,7 +30,9 @@ def run_bounded(rep, prop, configs, budget_s, seed, want=None, clause=None):
     tasks = []
     for label, gkw, vkind, n in configs:
         base = seed * 1_000_003 + (int(hashlib.sha1(label.encode()).hexdigest()[:6], 16) % 100_000) * 1000
-        tasks += [(base + i, gkw, vkind, want) for i in range(n)]
+        tasks += [((i + 0.5) / n, len(tasks) + i, (base + i, gkw, vkind, want)) for i in range(n)]
+    # interleaved: whatever part of the list fits the time budget covers every configuration proportionally
+    tasks = [t for _, _, t in sorted(tasks, key=lambda x: (x[0], x[1]))]
     t0 = time.time()
     recs, done, timed_out = E.run_pool(P.full_task, tasks, budget_s)
     status = {}
